@@ -194,8 +194,10 @@ func c09PartA(res *vResult, cfg c09Cfg, only *c09Case) {
 			}
 		}
 		res.Distinct++
+		res.States++
 		sys.exec(&sessReq{sReq: sReq{Kind: kDel, Conn: 0}, Sess: ctx.newSess.Idx})
 	}
+	defer func() { res.Transitions += int64(sys.steps); res.Traces += int64(sys.steps) }()
 	if only != nil {
 		run(*only.QER, false)
 		run(*only.QER, true)
@@ -382,10 +384,13 @@ func c09PartB(res *vResult, only *c09Case) {
 				break
 			}
 			ok = c09CheckLimiter(sys, s, &prev, touched, m.Label, cs)
+			res.States++
 		}
 		res.Distinct++
+		res.States++
 		sys.exec(&sessReq{sReq: sReq{Kind: kDel, Conn: 0}, Sess: s.Idx})
 	}
+	defer func() { res.Transitions += int64(sys.steps); res.Traces += int64(sys.steps) }()
 	if only != nil {
 		runCase(*only.Est, only.Mods)
 		return
